@@ -175,7 +175,7 @@ CHECKS['C11'] = dict(
     evidence=c11_evidence,
     rule='the workloads of C01-C10 (same generators: bounded-exhaustive tree shapes and hash-array images, index sweeps, random histories) executed on a gcc ASan+UBSan+LSan build in recover mode; '
          'all caller keys/values live in exactly-sized heap blocks (keys also at odd offsets inside a block), are scribbled and freed right after each call; the allocation ledger must be empty when a container is released; '
-         'the static hash table region lies between 64 KiB ASan-poisoned guard zones; every 61st state check also runs the container's debug() printer on the real contents; optional out-parameters are NULL in a quarter of the calls. evaluation = one container operation executed under the sanitizers; '
+         'the static hash table region lies between 64 KiB ASan-poisoned guard zones; every 61st state check also runs the debug() printer of the container on the real contents; optional out-parameters are NULL in a quarter of the calls. evaluation = one container operation executed under the sanitizers; '
          'a functional mismatch abandons the history (decided by C01-C10). distinct = distinct container states reached (per-harness definition, summed).',
     require=['containers_released', 'containers_released_leak_free', 'histories_completed', 'exhaustive_shapes', 'exhaustive_images', 'sweep_cells'],
     assumptions=['gcc 12 libasan/libubsan/liblsan; UBSan nonnull-attribute check off (memcpy(p, NULL, 0))',
